@@ -221,6 +221,14 @@ def check(pid, tier, seed, replay):
     else:
         jobs = [(seed + i, 3000, ml) for i, ml in enumerate([1, 2, 2, 3, 4, 4, 4, 6, 6, 8, 8, 8, 12, 4, 2, 6] * 2)]
     t_traces(ck, pid, jobs)
+    if pid == "C07":
+        # branch clause: a ? branch is taken iff the popped value is below the count, a ! branch iff it equals it.
+        # Every behaviour of the control slice (branches against counts 0..4 on integers, fractions, negatives,
+        # NaN) is replayed command by command through execute_one and judged by HyMachine's EvalArea.
+        from . import machine
+        cases, n = machine.mc_machine(ck, "control", 2 if quick else 3, 12)
+        trace = machine.run_steps(ck, cases, "c07", maxsteps=18)
+        machine.validate_traces(ck, trace, 12, lambda e, run, exp: "branch/jump differs from the definition (%s event)" % e.get("ev"), "R-branch")
     ck.cov["rule"] = ("R: every case of the TLC-enumerated operand space (exhaustive); T: one validated event per "
                       "recorded operation of random register histories")
     return ck.finish()
